@@ -106,6 +106,17 @@ theorem inv_step (args : Nat → String → Val) (prog : Nat → List Instr) (s0
         exact ⟨hu', du, solou, by simpa [upd_other _ _ _ _ hu] using hoku, by simpa using hownu,
           by simpa [upd_other _ _ _ _ hu] using hrunu, by simpa using hvalu⟩
 
+    | touch g =>
+      simp only [sectionOK, Bool.and_eq_true] at hok
+      intro u
+      by_cases hu : u = t
+      · subst hu
+        refine ⟨h, d, solo, by simpa [upd_same] using hok.2, by simpa using hown, ?_, by simpa using hval⟩
+        simpa [upd_same, run] using hrun
+      · obtain ⟨hu', du, solou, hoku, hownu, hrunu, hvalu⟩ := hI u
+        exact ⟨hu', du, solou, by simpa [upd_other _ _ _ _ hu] using hoku, by simpa using hownu,
+          by simpa [upd_other _ _ _ _ hu] using hrunu, by simpa using hvalu⟩
+
 theorem inv_sched (args : Nat → String → Val) (prog : Nat → List Instr) (s0 : Store) :
     ∀ (sched : List Nat) (s : Sys), Inv args prog s0 s → Inv args prog s0 (runSched args s sched)
   | [], _, h => h
@@ -123,6 +134,7 @@ theorem sectionOK_false_d (d : List String) : ∀ q : List Instr, sectionOK fals
   | .rel :: _ => by simp [sectionOK]
   | .set _ :: _ => by simp [sectionOK]
   | .use _ :: _ => by simp [sectionOK]
+  | .touch _ :: _ => by simp [sectionOK]
 
 theorem sectionOK_append : ∀ (p q : List Instr) (h : Bool) (d : List String),
     sectionOK h d p = true → sectionOK false [] q = true → sectionOK h d (p ++ q) = true
@@ -139,6 +151,9 @@ theorem sectionOK_append : ∀ (p q : List Instr) (h : Bool) (d : List String),
     simp only [List.cons_append, sectionOK, Bool.and_eq_true] at hp ⊢
     exact ⟨hp.1, sectionOK_append p q h (g :: d) hp.2 hq⟩
   | .use g :: p, q, h, d, hp, hq => by
+    simp only [List.cons_append, sectionOK, Bool.and_eq_true] at hp ⊢
+    exact ⟨hp.1, sectionOK_append p q h d hp.2 hq⟩
+  | .touch g :: p, q, h, d, hp, hq => by
     simp only [List.cons_append, sectionOK, Bool.and_eq_true] at hp ⊢
     exact ⟨hp.1, sectionOK_append p q h d hp.2 hq⟩
 
